@@ -209,6 +209,33 @@ func (g *Grammar) ExprString(e *syntax.Expr) string {
 	}
 }
 
+// BisonRuleString renders the right-hand side of a production for the Bison export. Unlike
+// ExprString, it prints the symbols the parser tables were built from, including the
+// nonterminals extracted for mid-rule actions.
+func (g *Grammar) BisonRuleString(r *Rule) string {
+	var buf strings.Builder
+	for _, sym := range r.RHS {
+		if buf.Len() > 0 {
+			buf.WriteByte(' ')
+		}
+		switch {
+		case sym.IsStateMarker():
+			buf.WriteString("/*." + g.Parser.Tables.Markers[sym.AsMarker()].Name + "*/")
+		case int(sym) < g.NumTokens:
+			buf.WriteString(g.Syms[sym].ID)
+		default:
+			buf.WriteString(g.Syms[sym].Name)
+		}
+	}
+	if buf.Len() == 0 {
+		buf.WriteString("%empty")
+	}
+	if r.Precedence > 0 {
+		buf.WriteString(" %prec " + g.Syms[r.Precedence].ID)
+	}
+	return buf.String()
+}
+
 // RuleString returns a user-friendly rendering of a given rule.
 func (g *Grammar) RuleString(r Rule) string {
 	var sb strings.Builder
